@@ -30,7 +30,7 @@ fn plan(tier: Tier, _seed: u64) -> Plan {
 		shards: 12,
 		case_timeout_s: 1200,
 		level: "fault_enumeration",
-		rule: "one case = one recorded write trace (format versatiles | pmtiles x tile set x compression; one PMTiles / versatiles case with > 16384 tiles, i.e. leaf directories / several blocks). Crash points enumerated per trace: EVERY operation prefix k = 0..n (for the two traces with > 16384 tiles: every 50th prefix plus the first 20 and the last 300, byte cuts in the last 300 operations); every byte cut of operations up to 2 kB and of the last four operations (final header, directories / block index; up to 20 kB); first / last 64 bytes and every 97th byte of longer operations. One evaluation = one crash image opened with the real reader. Syscall level (8 cases): the file writer of the library and the real `versatiles convert` are run under strace; the openat / write / pwrite64 / lseek / ftruncate calls on the output file are replayed prefix by prefix with byte cuts of every write (the replay must reproduce the file on disk, otherwise the case is inconclusive). Non-trivial crash point: a cut strictly inside the trace (not the empty and not the complete file); distinct by (trace fingerprint, operation index, byte cut)".into(),
+		rule: "one case = one recorded write trace (format versatiles | pmtiles x tile set x compression; one PMTiles / versatiles case with > 16384 tiles, i.e. leaf directories / several blocks). Crash points enumerated per trace: EVERY operation prefix k = 0..n (for the two traces with > 16384 tiles: every 50th prefix plus the first 20 and the last 300, byte cuts in the last 300 operations); every byte cut of operations up to 2 kB and of the last four operations (final header, directories / block index; up to 20 kB); first / last 64 bytes and every 97th byte of longer operations. One evaluation = one crash image opened with the real reader. Syscall level (8 cases): the file writer of the library and the real `versatiles convert` are run under strace; the openat / write / pwrite64 / lseek / ftruncate calls on the output file are replayed prefix by prefix with byte cuts of every write (the replay must reproduce the file on disk, otherwise the case is inconclusive); in 4 of the 8 cases an older complete container of other content already sits at the output path and is the starting image. An image counts as intact only if every source tile comes back byte-identical AND the container declares the compression the tiles are stored in. Non-trivial crash point: a cut strictly inside the trace (not the empty and not the complete file); distinct by (trace fingerprint, operation index, byte cut)".into(),
 		assumptions: vec![
 			"a crash leaves exactly the bytes of the completed operations plus a prefix of the interrupted one; regions never written read as zeros (sparse file semantics)".into(),
 			"operation level: operations reach the disk in program order; syscall level: system calls take effect in the order strace logged them (no reordering below the kernel boundary, i.e. no lost page-cache write-back ordering)".into(),
@@ -50,6 +50,9 @@ fn finalize(_t: Tier, _p: &Plan, rep: &mut Report) {
 	}
 	if rep.counter("syscall_traces_versatiles") == 0 || rep.counter("syscall_traces_pmtiles") == 0 {
 		rep.inconclusive("no syscall-level trace was replayed");
+	}
+	if rep.counter("syscall_traces_over_a_preexisting_container") == 0 {
+		rep.inconclusive("no syscall-level trace replaced an existing container");
 	}
 	if rep.counter("traces_with_leaf_directories") == 0 {
 		rep.inconclusive("no PMTiles trace with leaf directories");
@@ -122,6 +125,10 @@ pub enum Outcome {
 	OpenedWrong(String),
 }
 
+/// images that opened with all tiles intact but another declared tile *format* (torn PMTiles header
+/// between byte 99 and the end): counted, not judged — the statement speaks of tiles
+pub static FORMAT_DIFFERS: std::sync::atomic::AtomicU64 = std::sync::atomic::AtomicU64::new(0);
+
 pub fn try_image(format: &str, image: &[u8], ts: &TileSet) -> Outcome {
 	let r = guard::catch_strict_thread(|| {
 		guard::block_on(async {
@@ -135,6 +142,15 @@ pub fn try_image(format: &str, image: &[u8], ts: &TileSet) -> Outcome {
 				Err(_) => return Ok(false),
 				Ok(r) => r,
 			};
+			// a tile is only intact if it also decodes: the container must declare the compression the
+			// stored bytes really have
+			let declared = reader.get_parameters().tile_compression;
+			if declared != ts.comp.to_core() {
+				return Err(format!("the container declares tile compression {declared:?}, the tiles are stored as {:?}", ts.comp.to_core()));
+			}
+			if reader.get_parameters().tile_format != ts.format {
+				FORMAT_DIFFERS.fetch_add(1, std::sync::atomic::Ordering::Relaxed);
+			}
 			for (k, v) in &ts.tiles {
 				match reader.get_tile_data(&coord_of(k)).await {
 					Ok(Some(b)) if b.as_slice() == v.as_slice() => {}
@@ -155,12 +171,18 @@ pub fn try_image(format: &str, image: &[u8], ts: &TileSet) -> Outcome {
 }
 
 fn run_case(cx: &CaseCtx, rep: &mut Report) {
+	FORMAT_DIFFERS.store(0, std::sync::atomic::Ordering::Relaxed);
+	run_case_inner(cx, rep);
+	rep.count("images_opened_with_intact_tiles_but_another_declared_tile_format", FORMAT_DIFFERS.swap(0, std::sync::atomic::Ordering::Relaxed));
+}
+
+fn run_case_inner(cx: &CaseCtx, rep: &mut Report) {
 	let mut rng = cx.rng();
 	let op_cases = cx.tier.pick(24, 200);
 	if cx.case >= op_cases {
 		let k = cx.case - op_cases;
 		let format = if k % 2 == 0 { "versatiles" } else { "pmtiles" };
-		crate::mon::c12sys::run_syscall_case(cx, rep, format, k % 4 >= 2);
+		crate::mon::c12sys::run_syscall_case(cx, rep, format, k % 4 >= 2, k >= 4);
 		return;
 	}
 	let format = if cx.case % 2 == 0 { "versatiles" } else { "pmtiles" };
